@@ -146,6 +146,13 @@ theorem last_frame_is_commit_with_final_size (fs : List Frame) (hne : fs ≠ [])
     · unfold finalSize; rw [committed_eq_self _ f hl' hc, hl']
     · unfold finalSize; rw [committed_eq_self _ f hl hc, hl]
 
+/-- **scan_algorithm_correct.** The algorithm `scan` actually runs — a per-transaction map and
+a committed map keyed by page number, merged at every commit frame, values finally sorted
+by file offset — computes `compactFrames` (last frame of every page, in file order) for
+every frame list that does not end in an open transaction. -/
+theorem scan_algorithm_correct (fs : List Frame) (h : openTx fs = false) :
+    scanLiteral fs = compactFrames fs := scanLiteral_eq fs h
+
 /-! ### byte level: what `compact` returns -/
 
 /-- **compact_ok_iff.** `compact` succeeds exactly when the header parses, the arguments are
@@ -175,7 +182,7 @@ theorem compact_ok (full : Bool) (start : Nat) (wal out : Bytes) (h : compact fu
         by_cases ho : openTx fs = true
         · simp [ho] at h
         · have ho' : openTx fs = false := by simpa using ho
-          simp only [ho', Bool.false_eq_true, if_false] at h
+          simp only [ho', Bool.false_eq_true, if_false, scanLiteral_eq fs ho'] at h
           cases hw : writeCheck hd.pageSize (compactFrames fs) with
           | some e' =>
             rw [hw] at h
